@@ -351,8 +351,85 @@ func newSite(n ast.Node, kind string) int {
 	return id
 }
 
+// rewriteSelects turns every select statement into a switch over the result of
+// verifrt.Select (post-order, so nested selects are handled first).  The
+// communication clauses lose their channel operators here; the bodies are
+// instrumented afterwards by the main pass like any other code.
+func rewriteSelects(f *ast.File) {
+	astutil.Apply(f, nil, func(c *astutil.Cursor) bool {
+		sel, ok := c.Node().(*ast.SelectStmt)
+		if !ok {
+			return true
+		}
+		newSite(sel, "select")
+		res := ast.NewIdent("verifSel")
+		var args []ast.Expr
+		hasDefault := "false"
+		var clauses []ast.Stmt
+		idx := 0
+		for _, st := range sel.Body.List {
+			cc := st.(*ast.CommClause)
+			if cc.Comm == nil {
+				hasDefault = "true"
+				clauses = append(clauses, &ast.CaseClause{Body: cc.Body})
+				continue
+			}
+			body := cc.Body
+			recvOf := func(e ast.Expr) ast.Expr {
+				for {
+					if p, ok := e.(*ast.ParenExpr); ok {
+						e = p.X
+						continue
+					}
+					break
+				}
+				u, ok := e.(*ast.UnaryExpr)
+				if !ok || u.Op != token.ARROW {
+					die("%s: unsupported communication clause", posStr(cc))
+				}
+				return u.X
+			}
+			switch x := cc.Comm.(type) {
+			case *ast.SendStmt:
+				args = append(args, &ast.CallExpr{Fun: rtSel("SendCase"), Args: []ast.Expr{x.Chan, x.Value}})
+			case *ast.ExprStmt:
+				args = append(args, &ast.CallExpr{Fun: rtSel("RecvCase"), Args: []ast.Expr{recvOf(x.X)}})
+			case *ast.AssignStmt:
+				ch := recvOf(x.Rhs[0])
+				args = append(args, &ast.CallExpr{Fun: rtSel("RecvCase"), Args: []ast.Expr{ch}})
+				fn := "RecvVal"
+				if len(x.Lhs) == 2 {
+					fn = "RecvVal2"
+				}
+				as := &ast.AssignStmt{Lhs: x.Lhs, Tok: x.Tok, Rhs: []ast.Expr{&ast.CallExpr{Fun: rtSel(fn), Args: []ast.Expr{ch, res}}}}
+				body = append([]ast.Stmt{as}, body...)
+				if x.Tok == token.DEFINE {
+					// the variables may be unused in the body
+					for _, l := range x.Lhs {
+						if id, ok := l.(*ast.Ident); ok && id.Name != "_" {
+							body = append(body[:1:1], append([]ast.Stmt{&ast.AssignStmt{Lhs: []ast.Expr{ast.NewIdent("_")}, Tok: token.ASSIGN, Rhs: []ast.Expr{ast.NewIdent(id.Name)}}}, body[1:]...)...)
+						}
+					}
+				}
+			default:
+				die("%s: unsupported communication clause", posStr(cc))
+			}
+			clauses = append(clauses, &ast.CaseClause{List: []ast.Expr{&ast.BasicLit{Kind: token.INT, Value: strconv.Itoa(idx)}}, Body: body})
+			idx++
+		}
+		call := &ast.CallExpr{Fun: rtSel("Select"), Args: append([]ast.Expr{ast.NewIdent(hasDefault)}, args...)}
+		c.Replace(&ast.SwitchStmt{
+			Init: &ast.AssignStmt{Lhs: []ast.Expr{res}, Tok: token.DEFINE, Rhs: []ast.Expr{call}},
+			Tag:  &ast.SelectorExpr{X: ast.NewIdent("verifSel"), Sel: ast.NewIdent("I")},
+			Body: &ast.BlockStmt{List: clauses},
+		})
+		return true
+	})
+}
+
 func rewriteFile(p *packages.Package, f *ast.File) {
 	info := p.TypesInfo
+	rewriteSelects(f)
 	// the value spec / assign statements whose single RHS is <-ch with two LHS
 	recv2 := map[*ast.UnaryExpr]bool{}
 	ast.Inspect(f, func(n ast.Node) bool {
@@ -369,8 +446,6 @@ func rewriteFile(p *packages.Package, f *ast.File) {
 					recv2[u] = true
 				}
 			}
-		case *ast.SelectStmt:
-			die("%s: select statements are not supported by the instrumenter", posStr(x))
 		}
 		return true
 	})
